@@ -119,6 +119,8 @@ def nodeType (j : Json) : D NodeType := do
     dfa := (← listOf dfaState (← field j "dfa")).toArray
     markSet := markSet
     attrs := ← listOf attrDecl (← field j "attrs")
+    definingAsContext := ← bool (fieldD j "definingAsContext" (Json.bool false))
+    definingForContent := ← bool (fieldD j "definingForContent" (Json.bool false))
   }
 
 def markType (j : Json) : D MarkType := do
